@@ -4,19 +4,32 @@ ReplFanout.tla (Go channel / map semantics of the fan-out) is model-checked; its
 GRPCReplicationServer + Sender goroutines (in-process fake streams) by the gate player; a free-running execution is
 run under the race detector."""
 PROPS = ["C26"]
-READY = False
-CLAIMS = {}
+READY = True
+CLAIMS = {
+ "C26": dict(technique="TLC model checking of ReplFanout.tla (Go channel and map semantics of the replication fan-out, one action per hook-to-hook segment of the stream handlers and of the fan-out goroutine) + TLC behaviours forced on the real GRPCReplicationServer / Sender goroutines by the gate player + free-running connect/disconnect stress under the race detector",
+             text="ReplFanout.tla models GetWALStream (insert into the stream map, serve, notice the dead stream, remove the entry) and Sender.Run / SendReplicationMessage (range over the map, send per replica) with Go semantics (send on a closed channel panics, a map written while iterated is a race). TLC checks exhaustively for 2 replicas and 3 transactions NoSendOnClosed, NoMapRace, ReceivedInCommitOrder, ConnectedGetAll and the action property PrefixStable for the synchronised design, and shows that the unsynchronised design (deviation NoLock, the tree before fix d0ac6bd) violates the first two. TLC-simulated behaviours (connects, stream failures, commits, fan-out steps in every order) are executed by the real goroutines in TLC's order with in-process fake gRPC streams (two replicas behind ONE IP address, distinct ports); at the end each replica's received sequence must be in commit order and contain every transaction committed while it was connected and healthy; a panic of the sender goroutine, a hang or a race report is a violation.",
+             note="Trusted: TLC, fake in-process streams instead of gRPC transport, the gate player. Bounded: 2 replicas, 3 transactions per behaviour; the order in which Go ranges over the stream map cannot be forced (schedules assuming the other order are drift). Stress: 3 replicas, 40 (quick) / 300 (thorough) transactions under -race."),
+}
 
 import json, os, random, shutil
 import vlib
 from vlib import Result, Undecided
 
-GATED = ["Repl.inserted", "Repl.beforeDelete", "Repl.deleted", "Repl.closed", "Repl.fanout.beforeSend", "Repl.fanout.sent", "Stream.send"]
+GATED = ["Repl.inserted", "Repl.beforeDelete", "Repl.deleted", "Repl.closed", "Repl.fanout.enter", "Repl.fanout.beforeSend", "Repl.fanout.done", "Stream.send"]
 
 
 def to_schedule(beh):
     steps, actors = [], {}
     n = 0
+    fan = {"at": "waiting", "q": 0}     # where the real fan-out goroutine is: waiting | enter | before | done
+
+    def to_enter():
+        # the fan-out goroutine takes the next queued transaction and parks at the entry of SendReplicationMessage
+        if fan["at"] == "done":
+            steps.append({"actor": "fan", "until": "Repl.fanout.enter", "label": "FanTakesNext"})
+            fan["at"] = "enter"
+            fan["q"] -= 1
+
     for st in beh["steps"]:
         p, a, u = st["proc"], st["act"], st["until"]
         if a == "Connect":
@@ -31,15 +44,27 @@ def to_schedule(beh):
             n += 1
             actors["src%d" % n] = [{"op": "fan_send", "x": {"msg": len([s for s in steps if s["label"] == "Commit"]) + 1}}]
             steps.append({"actor": "src%d" % n, "until": "done", "label": "Commit"})
+            fan["q"] += 1
+            if fan["at"] == "waiting":
+                steps.append({"actor": "fan", "until": "Repl.fanout.enter", "label": "FanWakes"})
+                fan["at"] = "enter"
+                fan["q"] -= 1
         elif a == "FanNext":      # no replica in the map: the message is dropped
-            steps.append({"actor": "fan", "until": "blocked", "label": "FanNext(empty map)", "wait_ms": 40})
+            to_enter()
+            steps.append({"actor": "fan", "until": "Repl.fanout.done", "label": "FanNext(empty map)"})
+            fan["at"] = "done"
         elif a == "FanPick":
+            to_enter()
             steps.append({"actor": "fan", "until": "Repl.fanout.beforeSend", "arg": u, "label": "FanPick"})
+            fan["at"] = "before"
         elif a in ("FanSend", "FanSendPick"):
             if u == "PANIC":
                 steps.append({"actor": "fan", "until": "PANIC", "label": "FanSend(closed channel)"})
                 break
-            steps.append({"actor": "fan", "until": "Repl.fanout.sent", "label": "FanSend"})
+            # the send itself; the fan-out then parks before the next replica's send or after it has released the map
+            steps.append({"actor": "fan", "until": ("Repl.fanout.done" if a == "FanSend" else "Repl.fanout.beforeSend"), "label": "FanSend",
+                          **({"arg": u} if a == "FanSendPick" else {})})
+            fan["at"] = "done" if a == "FanSend" else "before"
             # the held replica's handler takes the message from its channel and calls stream.Send
             if st["out"] in ("deliver", "fail"):
                 steps.append({"actor": st["r"], "until": "Stream.send", "label": "HandlerTakes"})
@@ -47,8 +72,6 @@ def to_schedule(beh):
                     steps.append({"actor": st["r"], "until": "blocked", "label": "Delivered", "wait_ms": 40})
                 else:
                     steps.append({"actor": st["r"], "until": "Repl.beforeDelete", "label": "NoticeDeadStream"})
-            if a == "FanSendPick":
-                steps.append({"actor": "fan", "until": "Repl.fanout.beforeSend", "arg": u, "label": "FanPick"})
         elif a == "Delete":
             steps.append({"actor": p, "until": "Repl.deleted", "label": a})
         elif a == "Close":
@@ -63,7 +86,7 @@ def run(prop, tier):
     binary = vlib.build_harness(cmd="mv_fanout")
     quick = tier == "quick"
     known = {k["deviation"]: k for k in vlib.known_findings(prop)}
-    reps = '{"r1","r2"}'
+    reps = '{"10.0.0.7:40001","10.0.0.7:40002"}'    # two replicas behind one IP address: distinct streams all the same
     base = dict(Replicas=reps, NMsg=3, Deviations="{}")
     r = vlib.run_tlc("ReplFanout", "rf_pure.cfg", cfg_text=vlib.cfg_text(base, invariants=["NoSendOnClosed", "NoMapRace", "ReceivedInCommitOrder", "ConnectedGetAll"],
                                                                        view="View", properties=["PrefixStable"]), timeout=900)
@@ -78,7 +101,7 @@ def run(prop, tier):
             raise Undecided("MODEL-DRIFT: NoLock no longer breaks %s in the model" % inv)
     # behaviours: ordinary complete ones, and the ones that end in the panic
     nb = 40 if quick else 400
-    cons = dict(base, Deviations='{"NoLock"}')
+    cons = dict(base, Deviations=('{"NoLock"}' if "NoLock" in known else "{}"))
     r = vlib.run_tlc("ReplFanout", "rf_sim.cfg", cfg_text=vlib.cfg_text(cons, invariants=["Emit", "EmitPanic"], view="View"), simulate=nb * 3, depth=60,
                      seed_=rng.randrange(1, 2 ** 31), workers=1, timeout=900)
     vlib.tlc_ok(r, "ReplFanout simulate")
@@ -95,7 +118,7 @@ def run(prop, tier):
         sched, actors = to_schedule(beh)
         expect_panic = bool(sched and sched[-1]["until"] == "PANIC")
         if expect_panic:
-            sched[-1]["until"] = "Repl.fanout.sent"      # if the code survives, this is where the fan-out arrives
+            sched[-1]["until"] = "Repl.fanout.done"      # if the code survives, this is where the fan-out arrives
         ops = [{"op": "fan_start"},
                {"op": "play", "x": {"actors": actors, "gated": GATED, "schedule": sched, "timeout_ms": 400,
                                     "background": {"Repl.fanout.": "fan"}, "finish": False}},
@@ -160,8 +183,8 @@ def run(prop, tier):
     rbin = vlib.build_harness(race=True, cmd="mv_fanout")
     actors = {}
     for k in range(3):
-        actors["h%d" % k] = [{"op": "fan_serve", "x": {"r": "q%d" % k}}]
-        actors["f%d" % k] = [{"op": "sleep", "sleep_ms": 3 + 2 * k}, {"op": "fan_fail", "x": {"r": "q%d" % k}}]
+        actors["h%d" % k] = [{"op": "fan_serve", "x": {"r": "10.0.0.9:5000%d" % k}}]
+        actors["f%d" % k] = [{"op": "sleep", "sleep_ms": 3 + 2 * k}, {"op": "fan_fail", "x": {"r": "10.0.0.9:5000%d" % k}}]
     actors["src"] = []
     for m in range(40 if quick else 300):
         actors["src"] += [{"op": "fan_send", "x": {"msg": (m % 250) + 1}}, {"op": "sleep", "sleep_ms": 1}]
